@@ -24,6 +24,7 @@ ANCHORS = {"src/skmatter/clustering/_quick_shift.py": [
     "src/skmatter/metrics/_pairwise.py": ["periodic_pairwise_euclidean_distances",
                                           "_periodic_euclidean_distances"]}
 
+KEY_BOTH = "fit crashes (UnboundLocalError: gabrial) when dist_cutoff_sq and gabriel_shell are both set"
 FAMILIES = ["tiny", "medium", "large", "collinear", "dups"]
 SCALES = [0.5, 1.0, 1.5, 2.0, 3.0]
 
@@ -62,11 +63,14 @@ def exact_d2(X, cell):
     return D
 
 
-def gen_case(rng, quick, nmax=None, perm_of=None):
+def gen_case(rng, quick, nmax=None, force_both=False, spread=False):
     nmax = nmax or (14 if quick else 40)
     n = rng.randint(1, nmax) if rng.random() < 0.8 else rng.randint(1, 4)
     d = rng.randint(1, 4)
     fam = rng.choice(FAMILIES)
+    if spread and rng.random() < 0.7:
+        fam = "large"           # few exact distance / right-angle ties
+        d = max(d, 2)
     X = gen_points(rng, n, d, fam)
     wkind = rng.random()
     if wkind < 0.8:
@@ -80,7 +84,7 @@ def gen_case(rng, quick, nmax=None, perm_of=None):
         span = 1 + max(abs(v) for r in X for v in r)
         cell = [rng.randint(2, 2 * span + 3) for _ in range(d)]
     case = dict(n=n, d=d, family=fam, X=X, w=w, cell=cell)
-    if rng.random() < 0.55:
+    if force_both or rng.random() < 0.55:
         D = exact_d2(X, cell)
         diam = max(max(r) for r in D)
         ck = rng.choice(["tiny", "medium", "huge", "mixed"])
@@ -95,6 +99,9 @@ def gen_case(rng, quick, nmax=None, perm_of=None):
                 k = diam * 9 + rng.randint(1, 5)
             cuts.append(k + 0.125)
         case.update(mode="cut", cuts=cuts, cut_kind=ck, scale=rng.choice(SCALES))
+        if force_both or rng.random() < 0.03:
+            # both rules configured: the documented behaviour is "the distance cutoff is used"
+            case.update(mode="both", shell=rng.choice([1, 2, 3]))
     else:
         case.update(mode="gabriel", shell=rng.choice([1, 1, 2, 2, 3, 4]))
     return case
@@ -104,7 +111,7 @@ def permuted(case, perm):
     c = dict(case)
     c["X"] = [case["X"][p] for p in perm]
     c["w"] = [case["w"][p] for p in perm]
-    if case["mode"] == "cut":
+    if case["mode"] != "gabriel":
         c["cuts"] = [case["cuts"][p] for p in perm]
     c["perm"] = list(perm)
     return c
@@ -124,6 +131,9 @@ def run_impl(case):
     try:
         if case["mode"] == "cut":
             qs = QuickShift(dist_cutoff_sq=np.array(case["cuts"], dtype=float), scale=case["scale"], **kw)
+        elif case["mode"] == "both":
+            qs = QuickShift(dist_cutoff_sq=np.array(case["cuts"], dtype=float), gabriel_shell=case["shell"],
+                            scale=case["scale"], **kw)
         else:
             qs = QuickShift(gabriel_shell=case["shell"], **kw)
         D = np.array(qs.metric(X, X), dtype=float)
@@ -191,7 +201,7 @@ def next_sets(case, D, G):
     n, w = case["n"], case["w"]
     res = []
     for i in range(n):
-        if case["mode"] == "cut":
+        if case["mode"] != "gabriel":
             cut = eff_cuts(case)[i]
             cand = [j for j in range(n) if j != i and w[j] > w[i] and D[i][j] < cut]
         else:
@@ -201,7 +211,7 @@ def next_sets(case, D, G):
             m = min(D[i][j] for j in cand)
             res.append(set(j for j in cand if D[i][j] == m))
             continue
-        if case["mode"] == "cut" and n > 1:
+        if case["mode"] != "gabriel" and n > 1:
             m = min(D[i][j] for j in range(n) if j != i)
             nn = [j for j in range(n) if j != i and D[i][j] == m]
             s = set(j for j in nn if w[j] > w[i])
@@ -216,6 +226,9 @@ def next_sets(case, D, G):
 def oracle(case, rec):
     """Direct statement of C16 on the implementation's outputs (tie-aware).  None or a message."""
     if "error" in rec:
+        if case["mode"] == "both":
+            return ("with dist_cutoff_sq and gabriel_shell both set fit raised %s (%s); documented: "
+                    "'If both of them are set, the distance cutoff is used'" % (rec["error"], rec.get("error_msg")))
         return "fit raised %s: %s" % (rec["error"], rec.get("error_msg"))
     n = case["n"]
     D = exact_d2(case["X"], case["cell"])
@@ -266,6 +279,9 @@ def case_coq(case, rec):
     w = C.zlist(case["w"])
     if case["mode"] == "cut":
         mode = "(Cut %s %s)" % (C.zlist([int(Fr(c) * 8) for c in case["cuts"]]), C.Zl(int(case["scale"] * 2)))
+    elif case["mode"] == "both":
+        mode = "(Both %s %s %d%%nat)" % (C.zlist([int(Fr(c) * 8) for c in case["cuts"]]), C.Zl(int(case["scale"] * 2)),
+                                         case["shell"])
     else:
         mode = "(Gab %d%%nat)" % case["shell"]
     s = "qs_case_ok %s %s %s %s %s" % (Dm, w, mode, C.natlist(rec["labels"]), C.natlist(rec["centres"]))
@@ -296,23 +312,34 @@ def features(case, rec):
 
 def run(ctx):
     po = C.proof_obligations(ctx.prop)
-    ncases = 900 if ctx.quick else 9000
+    ncases = 900 if ctx.quick else 8000
     cases, recs = [], []
     for _ in range(ncases):
         cases.append(gen_case(ctx.rng, ctx.quick))
+    for _ in range(60 if ctx.quick else 600):   # periodic Gabriel cases without right-angle ties are rare on small lattices
+        c = gen_case(ctx.rng, ctx.quick, spread=True)
+        if c["mode"] == "gabriel":
+            if c["cell"] is None:
+                span = 1 + max(abs(v) for r in c["X"] for v in r)
+                c["cell"] = [ctx.rng.randint(span, 2 * span + 3) for _ in range(c["d"])]
+            cases.append(c)
+    for _ in range(4):          # every run examines the configuration with both rules set
+        cases.append(gen_case(ctx.rng, ctx.quick, force_both=True))
     # permutations of the input order: exhaustive for small n
-    nperm_inputs, nperm_runs = (6, 4) if ctx.quick else (150, 6)
+    nperm_inputs, nperm_runs = (6, 4) if ctx.quick else (100, 6)
     perm_groups = []
     for _ in range(nperm_inputs):
-        base = gen_case(ctx.rng, ctx.quick, nmax=nperm_runs)
+        base = gen_case(ctx.rng, ctx.quick, nmax=nperm_runs, spread=True)
         grp = []
         for perm in itertools.permutations(range(base["n"])):
             cases.append(permuted(base, perm))
             grp.append(len(cases) - 1)
         perm_groups.append(grp)
     if not ctx.quick:
-        for _ in range(8):
-            base = gen_case(ctx.rng, ctx.quick, nmax=7)
+        for _ in range(4):
+            base = gen_case(ctx.rng, ctx.quick, nmax=7, spread=True)
+            while base["n"] < 7:
+                base = gen_case(ctx.rng, ctx.quick, nmax=7, spread=True)
             grp = []
             for perm in itertools.permutations(range(base["n"])):
                 cases.append(permuted(base, perm))
@@ -337,10 +364,10 @@ def run(ctx):
         bump("n_hist", (c["n"] // 5) * 5)
         stats["cells"] += c["cell"] is not None
         stats["repeated_weight_cases"] += len(set(c["w"])) < c["n"]
-        if c["mode"] == "cut":
+        if c["mode"] != "gabriel":
             bump("scales", c["scale"])
             bump("cut_kinds", c["cut_kind"])
-        else:
+        if c["mode"] != "cut":
             bump("shells", c["shell"])
         if "error" in r:
             stats["errors"] += 1
@@ -392,11 +419,18 @@ def run(ctx):
             continue
         mismatched += [g[k] for k in lists[0]]
     n_search = 0
+    both_reported = False
     for i in sorted(set(mismatched + direct_fail)):
         msg = oracle(cases[i], recs[i])
         n_search += 1
         rep = dict(case=cases[i], observed=recs[i], correspondence="qs_case_ok/gabriel_ok (Model/QuickShift.v)")
-        if msg:
+        if msg and cases[i]["mode"] == "both" and "error" in recs[i]:
+            stats["both_rules_set_errors"] = stats.get("both_rules_set_errors", 0) + 1
+            if not both_reported:       # one replay for the whole family (fixes/F23_quickshift_both_rules.diff)
+                C.report_violation(ctx, "C16 fails on the implementation: " + msg, rep,
+                                   key=KEY_BOTH, found_input=True)
+            both_reported = True
+        elif msg:
             C.report_violation(ctx, "C16 fails on the implementation: " + msg, rep, found_input=True)
         else:
             rep["note"] = "model and implementation disagree but the tie-aware basin-partition oracle accepts the output"
